@@ -7,6 +7,7 @@
 -/
 import OllamaVerif.Proofs.Tokenizer
 import OllamaVerif.Proofs.TokenizerVocab
+import OllamaVerif.Proofs.TokenizerAdj
 
 namespace OllamaVerif.C20
 open OllamaVerif.Tok
@@ -474,6 +475,33 @@ example : (⟨[[97], [98]], [1], [], []⟩ : VocabData).specialStrings = none :=
 /-- non-vacuity of `mergeAll_fuel_sufficient`: a run that really merges ("aaaa" with the rule a+a, aa+aa) gives
     the same parts with ten times the fuel -/
 example : (mergeAll (bpeCfg ⟨fun s => if s = [97, 97] then some 1 else if s = [97, 97, 97, 97] then some 2 else none,
+      fun _ => [], fun l r => if l = r then some l.length else none, fun _ => 0, 3⟩) [97, 97, 97, 97]).map (·.runes)
+    = [[97, 97, 97, 97]] := by decide
+
+/-- a byte-level vocabulary as data: the 256 remapped bytes (ids 0..255) and the control token `<s>` (id 256) -/
+def byteData : VocabData :=
+  ⟨(List.range 256).map (fun b => [encByte false b]) ++ [[60, 115, 62]], List.replicate 256 1 ++ [3], [], []⟩
+
+/-- non-vacuity of `concrete_bpe_roundtrip`: `byteData` meets the covering and the ASCII-specials hypotheses, its
+    special list is `<s>` with id 256, and a text with the special literal in it round-trips -/
+example : (∀ b, b < 256 → b ≠ 0 → [encByte false b] ∈ byteData.values) ∧
+    (∀ q ∈ byteData.specialStrings.getD [], ∀ r ∈ q, r < 0x80) ∧
+    (byteData.specials utf8s).map (fun q => (q.lit, q.id)) = [([60, 115, 62], 256)] ∧
+    bpeEncode false byteData.vocab byteSplit (byteData.specials utf8s) noAdd [104, 60, 115, 62, 0xC3, 0xA9]
+      = [104, 256, 0xC3, 0xA9 ] ∧
+    bpeDecode byteData.vocab [104, 256, 0xC3, 0xA9] = [104, 60, 115, 62, 0xC3, 0xA9] := by
+  refine ⟨by decide +kernel, by decide +kernel, by decide +kernel, by decide +kernel, by decide +kernel⟩
+
+/-! ## the adjacency invariant (Proofs/TokenizerAdj.lean) -/
+
+/-- **Indexing both ends of a popped candidate directly, as the Go loop does, gives the same parts as the model's
+    successor lookup** — for either family, any vocabulary, any queue order, any input: every queue entry of every
+    reachable state has no live part strictly between its two ends. -/
+theorem merge_direct_indexing (cfg : Cfg) (rs : Str) : mergeAllDirect cfg rs = mergeAll cfg rs :=
+  mergeAll_eq_direct cfg rs
+
+/-- non-vacuity: a run with stale candidates ("aaaa": the middle pair dies) computed by the direct loop -/
+example : (mergeAllDirect (bpeCfg ⟨fun s => if s = [97, 97] then some 1 else if s = [97, 97, 97, 97] then some 2 else none,
       fun _ => [], fun l r => if l = r then some l.length else none, fun _ => 0, 3⟩) [97, 97, 97, 97]).map (·.runes)
     = [[97, 97, 97, 97]] := by decide
 
